@@ -248,11 +248,16 @@ def find_item(src, kind, path):
     """path: list of (kw, name) e.g. [('impl','impl Builder'),('fn','into_openapi')]"""
     lo, hi = 0, len(src)
     item = None
-    for kw, name in path:
+    for pi, (kw, name) in enumerate(path):
         items = scan_items(src, kind, lo, hi)
         cands = [it for it in items if it.kw == kw and it.name == name]
         # skip items under #[cfg(test)] / #[test]
         cands = [it for it in cands if '#[test]' not in it.attrs() and 'cfg(test)' not in it.attrs()]
+        if len(cands) > 1 and kw == 'impl' and pi + 1 < len(path):
+            # several impl blocks with the same header: the one that holds the next path element
+            nkw, nname = path[pi + 1]
+            cands = [it for it in cands if it.body_open is not None
+                     and any(x.kw == nkw and x.name == nname for x in scan_items(src, kind, it.body_open + 1, it.end - 1))]
         if len(cands) != 1:
             raise ScanError('item %s %s: %d candidates' % (kw, name, len(cands)))
         item = cands[0]
